@@ -397,7 +397,29 @@ def r_singleton(e, R):
             evaluators=[is_auto(True)])
     SC.never(e, R, "R-SINGLETON", fac, "reuse is given explicitly (True/False)", [(exl, "some")], autoset, "the 'auto' resolution",
              "an explicit reuse=True/False is overridden by the argument comparison", evaluators=[is_auto(False)])
-    R.floor("R-SINGLETON", 38)
+    # default size: max_workers=None keeps the current executor's size only when reuse is explicitly True and there is one
+    mwp = "max_workers"
+    keep = lambda n: n.kind == "stmt" and isinstance(n.ast, ast.Assign) and isinstance(n.ast.targets[0], ast.Name) and n.ast.targets[0].id == mwp \
+        and isinstance(n.ast.value, ast.Attribute) and n.ast.value.attr == "_max_workers"
+    cpu = lambda n: n.kind == "stmt" and isinstance(n.ast, ast.Assign) and isinstance(n.ast.targets[0], ast.Name) and n.ast.targets[0].id == mwp \
+        and isinstance(n.ast.value, ast.Call) and norm(n.ast.value.func).endswith("cpu_count")
+
+    def reuse_true(val):
+        def ev(x):
+            if isinstance(x, ast.Compare) and len(x.ops) == 1 and isinstance(x.ops[0], (ast.Is, ast.Eq)) and isinstance(x.left, ast.Name) and x.left.id == "reuse" \
+                    and isinstance(x.comparators[0], ast.Constant) and x.comparators[0].value is True:
+                return val
+            return None
+        return ev
+    SC.must(e, R, "R-SINGLETON", fac, "no size is given, reuse is True and an executor exists", [(SC.name(mwp), "none"), (exl, "some")], keep, "keeps that executor's size",
+            "a plain get_reusable_executor(reuse=True) resizes the pool to cpu_count()", evaluators=[reuse_true(True)])
+    SC.never(e, R, "R-SINGLETON", fac, "no size is given and there is no executor", [(SC.name(mwp), "none"), (exl, "none")], keep, "a read of the absent executor's size",
+             "AttributeError on None in the very first get_reusable_executor()", evaluators=[reuse_true(True)])
+    SC.must(e, R, "R-SINGLETON", fac, "no size is given and reuse is not True", [(SC.name(mwp), "none")], cpu, "defaults to cpu_count()", "no default size",
+            evaluators=[reuse_true(False)])
+    SC.never(e, R, "R-SINGLETON", fac, "a size is given", [(SC.name(mwp), "some")], lambda n: keep(n) or cpu(n), "an override of the requested size",
+             "the requested max_workers is ignored")
+    R.floor("R-SINGLETON", 42)
 
 
 # ---------------------------------------------------------------------------
